@@ -55,60 +55,97 @@ def path_counts():
         return ast.parse(textwrap.dedent(inspect.getsource(getattr(SFTPServer, name)))).body[0]
 
     helper_ok = {}
+    helper_exc = {}
 
     def is_self_call(node, names):
         return (isinstance(node, ast.Expr) and isinstance(node.value, ast.Call)
                 and isinstance(node.value.func, ast.Attribute) and isinstance(node.value.func.value, ast.Name)
                 and node.value.func.value.id == "self" and node.value.func.attr in names)
 
-    def run(stmts, states):
-        # states: set of (count, status) with status in n(ormal) r(eturned) b(roke)
+    def analyse_helper(name):
+        if name not in helper_ok:
+            ex = set()
+            helper_ok[name] = sorted({c for c, _ in run(func_ast(name).body, {(0, "n")}, ex, [])})
+            helper_exc[name] = sorted(ex)
+
+    def run(stmts, states, exc, fin):
+        """states: set of (count, status), status in n(ormal) r(eturned) b(roke).  `exc` collects, for every statement
+        that may raise (anything but return/break/continue/pass), the number of responder calls on the path an
+        exception raised by it takes: the sends before it, plus the sends of every enclosing `finally` block, plus
+        the one of start_subsystem's catch-all.  `fin` = send counts of the enclosing finally blocks."""
         for st in stmts:
             live = {(c, s) for c, s in states if s == "n"}
             done = states - live
             if not live:
                 return states
+            if not isinstance(st, (ast.Return, ast.Break, ast.Continue, ast.Pass, ast.Try, ast.If, ast.For, ast.While,
+                                   ast.With)):
+                extra = [0]
+                if is_self_call(st, HELPERS):
+                    analyse_helper(st.value.func.attr)
+                    extra = [e - 1 for e in helper_exc[st.value.func.attr]] or [0]
+                for c, _ in live:
+                    for e in extra:
+                        exc.add(c + e + sum(fin) + 1)
             if is_self_call(st, RESPONDERS):
                 live = {(c + 1, "n") for c, _ in live}
             elif is_self_call(st, HELPERS):
                 name = st.value.func.attr
-                if name not in helper_ok:
-                    helper_ok[name] = sorted({c for c, _ in run(func_ast(name).body, {(0, "n")})})
+                analyse_helper(name)
                 live = {(c + (1 if helper_ok[name] == [1] else 99), "n") for c, _ in live}
             elif isinstance(st, ast.Return):
                 live = {(c, "r") for c, _ in live}
             elif isinstance(st, ast.Break):
                 live = {(c, "b") for c, _ in live}
             elif isinstance(st, ast.If):
-                live = run(st.body, set(live)) | run(st.orelse, set(live))
+                for c, _ in live:
+                    exc.add(c + sum(fin) + 1)  # the test may raise
+                live = run(st.body, set(live), exc, fin) | run(st.orelse, set(live), exc, fin)
             elif isinstance(st, (ast.For, ast.While)):
-                once = run(st.body, set(live))
+                once = run(st.body, set(live), exc, fin)
                 broke = {(c, "n") for c, s in once if s == "b"}
                 normal_end = live | {(c, s) for c, s in once if s == "n"}
-                after_else = run(st.orelse, normal_end)
+                after_else = run(st.orelse, normal_end, exc, fin)
                 live = broke | after_else | {(c, s) for c, s in once if s == "r"}
             elif isinstance(st, ast.Try):
-                alt = run(st.body, set(live))
+                fsends = 0
+                if st.finalbody:
+                    fs = {c for c, _ in run(st.finalbody, {(0, "n")}, set(), [])}
+                    fsends = max(fs) if fs else 0
+                inner_exc = set()
+                alt = run(st.body, set(live), inner_exc, fin + ([fsends] if st.finalbody else []))
+                bare = any(h.type is None or (isinstance(h.type, ast.Name) and h.type.id in ("Exception", "BaseException"))
+                           for h in st.handlers)
                 for h in st.handlers:
-                    alt |= run(h.body, set(live))
-                live = run(st.finalbody, alt) if st.finalbody else alt
+                    alt |= run(h.body, set(live), exc, fin)
+                if not bare:
+                    exc |= inner_exc  # not (fully) caught here: propagates
+                if st.finalbody:
+                    # normal completion and early returns both run the finally block
+                    alt = {(c + fsends, s2) for c, s2 in alt}
+                live = alt
             elif isinstance(st, ast.With):
-                live = run(st.body, set(live))
+                live = run(st.body, set(live), exc, fin)
             states = done | live
         return states
 
     proc = func_ast("_process")
     node = [n for n in proc.body if isinstance(n, ast.If)][0]
     consts = {k: getattr(sf, k) for k in dir(sf) if k.startswith("CMD_") and isinstance(getattr(sf, k), int)}
-    out = []
+    out, exc_out = [], []
     while True:
         cmd = consts[node.test.comparators[0].id]
-        out.append((cmd, sorted({c for c, _ in run(node.body, {(0, "n")})})))
+        ex = set()
+        out.append((cmd, sorted({c for c, _ in run(node.body, {(0, "n")}, ex, [])})))
+        exc_out.append((cmd, sorted(ex)))
         if len(node.orelse) == 1 and isinstance(node.orelse[0], ast.If):
             node = node.orelse[0]
         else:
-            else_counts = sorted({c for c, _ in run(node.orelse, {(0, "n")})})
+            ex = set()
+            else_counts = sorted({c for c, _ in run(node.orelse, {(0, "n")}, ex, [])})
+            exc_out.append((0, sorted(ex)))
             break
+    path_counts.exc = exc_out
     return out, else_counts, helper_ok
 
 
@@ -167,6 +204,11 @@ def lean_source():
     L.append("def branchSendCounts : List (Nat × List Nat) := [%s]" % ", ".join(
         "(%d, [%s])" % (c, ", ".join(map(str, ns))) for c, ns in pcounts))
     L.append("def elseSendCounts : List Nat := [%s]" % ", ".join(map(str, else_counts)))
+    L.append("/-- per branch (0 = the final else): the numbers of responder calls on the paths taken when a statement of "
+             "the branch (or of a helper it calls) raises: sends before it + sends of enclosing finally blocks + the "
+             "catch-all's STATUS in start_subsystem -/")
+    L.append("def branchExcSendCounts : List (Nat × List Nat) := [%s]" % ", ".join(
+        "(%d, [%s])" % (c, ", ".join(map(str, ns))) for c, ns in path_counts.exc))
     L.append("/-- the same for the helpers a branch may call instead of a responder -/")
     L.append("def helperSendCounts : List (List Nat) := [%s]" % ", ".join(
         "[%s]" % ", ".join(map(str, helper_counts[k])) for k in sorted(helper_counts)))
